@@ -1198,7 +1198,7 @@ func init() {
 	register(&property{
 		Meta: propertyMeta{
 			ID:          "C15",
-			Explanation: "Only the second sentence of the property (the BuildURL->Match round trip is not decidable in this family): (C15-INDEX) every API that names a route maintains the name index with last-writer-wins: stores to Route.name occur only in constructors (the route is indexed by appendRoute when registered) or paired on the same path with namedRoutes[sameName] = sameRoute (NamedTo); appendRoute writes namedRoutes[route.name] = route on every path with a non-empty name, before any return; the index is written nowhere else and never deleted from; GetRoute is a plain lookup and BuildURL resolves through it; ToURL builds from the route's own registered pattern. (C15-MEMO) ToURL re-uses a caller-supplied builder through Path(route.path).Build(...): the builder type holds no state derived from its own settings that can go stale — every store into a field of an existing BuildRequestURL whose value depends on a load of another field (placeholders parsed from the path, ...) is either recomputed/invalidated in every function that assigns that other field, or is a keyed memo whose key is re-validated on every path to every use; a virtual type with a stale memo is analysed on every run and must be reported. (C01-SPACE) the text ToURL hands to the builder is literal-space: it is the route's pattern field(s), and nothing that went through the regex escaping steps (quotePointChar, checkAndParseOptional) is ever stored into Route.path / Route.start / a read Route.spath or returned as the table key. (C15-ESCAPE) no store into net/url.URL.Path in the root package derives from PathEscape, QueryEscape, EscapedPath, String, RequestURI or Values.Encode. (C15-SCAN) Build (or a function it reaches by static calls) applies a Find* method of the package variable varRegex to text from the builder's path field; parseParamRoute does the same with the route path. (C15-ARGS) in ToURL, Build, BuildURL, BuildRequestURL and the module functions they call, no MapUpdate / delete / clear has a map operand that can be a parameter, an element of a parameter slice or an assertion of one.",
+			Explanation: "Only the second sentence of the property (the BuildURL->Match round trip is not decidable in this family): (C15-INDEX) every API that names a route maintains the name index with last-writer-wins: stores to Route.name occur only in constructors (the route is indexed by appendRoute when registered) or paired on the same path with namedRoutes[sameName] = sameRoute (NamedTo); appendRoute writes namedRoutes[route.name] = route on every path with a non-empty name, before any return; the index is written nowhere else and never deleted from; GetRoute is a plain lookup and BuildURL resolves through it; ToURL builds from the route's own registered pattern. (C15-MEMO) ToURL re-uses a caller-supplied builder through Path(route.path).Build(...): the builder type holds no state derived from its own settings that can go stale — every store into a field of an existing BuildRequestURL whose value depends on a load of another field (placeholders parsed from the path, ...) is either recomputed/invalidated in every function that assigns that other field, or is a keyed memo whose key is re-validated on every path to every use; a virtual type with a stale memo is analysed on every run and must be reported. (C01-SPACE) the text ToURL hands to the builder is literal-space: it is the route's pattern field(s), and nothing that went through the regex escaping steps (quotePointChar, checkAndParseOptional) is ever stored into Route.path / Route.start / a read Route.spath or returned as the table key. (C15-ESCAPE) no store into net/url.URL.Path in the root package derives from PathEscape, QueryEscape, EscapedPath, String, RequestURI or Values.Encode. (C15-SCAN) Build (or a function it reaches by static calls) applies a Find* method of the package variable varRegex to text from the builder's path field; parseParamRoute does the same with the route path. (C15-ARGS) in ToURL, Build, BuildURL, BuildRequestURL and the module functions they call, no MapUpdate / delete / clear has a map operand that can be a parameter, an element of a parameter slice or an assertion of one; and every turn of a range over such a caller-supplied map stores the entry's value under its key (a builder map or url.Values.Add/Set) on every path to the next turn — no filter drops an argument.",
 			NotDecided:  []string{"the substitution itself in BuildRequestURL.Build: placeholder grammar, escaping, query parameters", "that Match on the built path returns the same route and values (value-level string round trip through net/url)"},
 			Assumptions: []string{"Go map assignment overwrites (last writer wins)"},
 		},
@@ -1922,6 +1922,63 @@ func ruleC15Args(r *Run) {
 		})
 	}
 	r.Check(rule, "URL builders:argument maps are read-only", token.NoPos, nBad == 0, fmt.Sprintf("%d map write(s) in %d function(s) of the URL builders, none on a map that can be the caller's", n, len(fns)))
+	// every entry of the caller's argument map is used: each turn of a range over it stores the entry's value under
+	// the entry's key — into a map of the builder (a path variable) or through url.Values.Add/Set (a query argument).
+	// A turn that can `continue` past both (a filter on the value: empty, zero, nil) drops an argument the caller
+	// supplied, and the built URL lacks a variable value that the pattern needs.
+	nLoops := 0
+	for _, f := range fns {
+		eachInstr(f, func(in ssa.Instruction) {
+			nx, ok := in.(*ssa.Next)
+			if !ok || nx.IsString {
+				return
+			}
+			rg, ok := nx.Iter.(*ssa.Range)
+			if !ok || !aliasesParam(rg.X, f) {
+				return
+			}
+			nLoops++
+			okV, kV, dV := extractOf(nx, 0), extractOf(nx, 1), extractOf(nx, 2)
+			construct := fmt.Sprintf("%s:range over the argument map#%d uses every entry", FuncName(f), nLoops)
+			if okV == nil || kV == nil || dV == nil {
+				r.Check(rule, construct, w.InstrPos(in), false, "the loop over the caller's arguments does not read both the key and the value of an entry")
+				return
+			}
+			fromK := func(v ssa.Value) bool { return flowsFromDeep(v, func(y ssa.Value) bool { return y == kV }) }
+			fromD := func(v ssa.Value) bool { return flowsFromDeep(v, func(y ssa.Value) bool { return y == dV }) }
+			consumes := func(x ssa.Instruction) bool {
+				switch c := x.(type) {
+				case *ssa.MapUpdate:
+					return fromK(c.Key) && fromD(c.Value)
+				case *ssa.Call:
+					if sc := staticCallee(c); sc != nil && (sc.Name() == "Add" || sc.Name() == "Set") && sc.Pkg != nil && sc.Pkg.Pkg.Path() == "net/url" {
+						a := c.Call.Args
+						return len(a) == 3 && fromK(a[1]) && fromD(a[2])
+					}
+				}
+				return false
+			}
+			fps, complete := exploreFromUntil(in, []condFact{{okV, true}}, 4000, func(x ssa.Instruction) bool { return x == in })
+			if !complete || len(fps) == 0 {
+				r.Undecided(rule, construct, w.InstrPos(in), "too many paths through the loop body")
+				return
+			}
+			good := true
+			for _, fp := range fps {
+				used := false
+				for _, x := range fp.instrs {
+					if consumes(x) {
+						used = true
+					}
+				}
+				if !used && (fp.ret != nil || (len(fp.instrs) > 0 && fp.instrs[len(fp.instrs)-1] == in)) {
+					good = false
+				}
+			}
+			r.Check(rule, construct, w.InstrPos(in), good, map[bool]string{true: "every turn stores the entry's value under its key (builder map or url.Values)", false: "a turn of the loop can move on to the next entry without having stored this one: an argument the caller supplied (a zero, an empty string, ...) is silently dropped from the URL"}[good])
+		})
+	}
+	r.Exists(rule, "URL builders:loops over the caller's argument map", token.NoPos, nLoops > 0, fmt.Sprintf("%d range loop(s) over a caller-supplied argument map", nLoops))
 }
 
 // aliasesParam: the value can BE (not merely be computed from) a parameter of f, an element of a parameter slice or
